@@ -90,6 +90,8 @@ func (fx *FnExec) call(fr *frame, st *State, res ssa.Value, cc *ssa.CallCommon) 
 		}
 	} else if gk := globalFuncKey(cc); gk != "" {
 		key = gk
+	} else if fk := fieldFuncKey(cc); fk != "" {
+		key = fk
 	} else {
 		return r
 	}
@@ -1270,4 +1272,15 @@ func (fx *FnExec) appendStructs(st *State, et types.Type, s, t SliceV, n int, nr
 		fx.setFamily(st, p.key, c.Ite(inplace, inpl, fresh))
 	}
 	return true
+}
+
+// fieldFuncKey: a call through a function-typed struct field is keyed pkg.Type.field.
+func fieldFuncKey(cc *ssa.CallCommon) string {
+	if fa, ok := cc.Value.(*ssa.UnOp); ok && fa.Op == token.MUL {
+		if f, ok := fa.X.(*ssa.FieldAddr); ok {
+			pt := f.X.Type().Underlying().(*types.Pointer).Elem()
+			return typeKey(pt) + "." + under(pt).(*types.Struct).Field(f.Field).Name()
+		}
+	}
+	return ""
 }
